@@ -18,7 +18,7 @@
 (* with the sorted-pair node.                                              *)
 (*                                                                         *)
 (* Event:  ev.op  = [op, n, style, salt, pos, corr, i, j]                  *)
-(*     op \in {"verify", "claim", "set_root"}                              *)
+(*     op \in {"verify", "claim", "set_root", "advance" (j ledgers pass)}  *)
 (*     (n, style, salt): the tree the proof was produced for / the tree    *)
 (*       whose root is installed;  pos: 0-based leaf position              *)
 (*     corr \in {"none","leaf","alter","swap","drop","extend","index",     *)
@@ -97,3 +97,124 @@ Root(m, t) == CASE t.style = "heap"  -> HNode(m, t, 0)
 Proof(m, t, k) == CASE t.style = "heap"  -> HProof(m, t, 2 * t.n - 2 - k)
                     [] t.style = "chain" -> CProof(m, t, k)
                     [] OTHER             -> LProof(m, t.style, LeavesOf(t), k)
+
+(* the folds of Verifier::verify and Verifier::verify_with_index --------------*)
+RECURSIVE FoldS(_, _)
+FoldS(x, pr) == IF Len(pr) = 0 THEN x ELSE FoldS(H("s", x, Head(pr)), Tail(pr))
+
+RECURSIVE FoldP(_, _, _)
+FoldP(x, pr, idx) ==
+  IF Len(pr) = 0 THEN x
+  ELSE FoldP(IF idx % 2 = 0 THEN H("p", x, Head(pr)) ELSE H("p", Head(pr), x), Tail(pr), idx \div 2)
+
+Fold(m, x, pr, idx) == IF m = "s" THEN FoldS(x, pr) ELSE FoldP(x, pr, idx)
+
+\* what the verifier must answer for (proof, root, leaf, index): membership is witnessed exactly
+\* when folding the proof from the leaf by the verifier's pairing rule yields the root; the
+\* positional form has no position for an index beyond 2^Len(proof)
+Accepts(m, pr, root, leaf, idx) ==
+  /\ (m = "p" => Len(pr) < 32 /\ idx < Pow2(Len(pr)))
+  /\ Fold(m, leaf, pr, idx) = root
+
+(* corruptions ------------------------------------------------------------------*)
+Corrupt(pr, o) ==
+  LET n == Len(pr) IN
+  CASE o.corr = "alter" /\ o.i \in 1..n -> [pr EXCEPT ![o.i] = X(2)]
+    [] o.corr = "swap" /\ o.i \in 1..n /\ o.j \in 1..n -> [pr EXCEPT ![o.i] = pr[o.j], ![o.j] = pr[o.i]]
+    [] o.corr = "drop" /\ o.i \in 1..n -> SubSeq(pr, 1, o.i - 1) \o SubSeq(pr, o.i + 1, n)
+    [] o.corr = "extend" /\ o.i \in 1..(n + 1) ->
+         SubSeq(pr, 1, o.i - 1) \o <<IF o.j \in 1..n THEN pr[o.j] ELSE X(2)>> \o SubSeq(pr, o.i, n)
+    [] o.corr = "interior" /\ o.i \in 1..n -> SubSeq(pr, o.i + 1, n)
+    [] OTHER -> pr
+
+\* the honest proof the input was derived from ("other": the proof of leaf j)
+BaseProof(m, o) == Proof(m, TreeOf(o), IF o.corr = "other" THEN o.j ELSE o.pos)
+ProofOf(m, o) == Corrupt(BaseProof(m, o), o)
+
+\* the index presented ("interior": the position of the presented node on its level)
+IdxOf(o) == CASE o.corr = "index" -> o.j
+              [] o.corr = "interior" -> o.pos \div Pow2(o.i)
+              [] OTHER -> o.pos
+
+\* the leaf hash presented.  A claim hashes (index, receiver, amount): changing the amount or
+\* the index yields a value that is no leaf of any tree.
+LeafOf(m, o) ==
+  CASE o.corr = "leaf" -> X(1)
+    [] o.corr = "index" /\ o.op = "claim" -> X(1)
+    [] o.corr = "interior" /\ o.i \in 1..Len(BaseProof(m, o)) ->
+         Fold(m, L(o.salt, o.pos), SubSeq(BaseProof(m, o), 1, o.i), o.pos)
+    [] OTHER -> L(o.salt, o.pos)
+
+\* the root a `verify` call is made against
+OtherTree(t, j) == IF j = 1 THEN [t EXCEPT !.salt = 1 - t.salt]
+                   ELSE [t EXCEPT !.n = IF t.n > 1 THEN t.n - 1 ELSE 2]
+RootOfV(m, o) == IF o.corr = "root"
+                 THEN (IF o.j = 0 THEN X(3) ELSE Root(m, OtherTree(TreeOf(o), o.j)))
+                 ELSE Root(m, TreeOf(o))
+
+ValidVerify(m, o) == Accepts(m, ProofOf(m, o), RootOfV(m, o), LeafOf(m, o), IdxOf(o))
+ValidClaim(g, o)  == /\ g.root # NoTree
+                     /\ Accepts(g.mode, ProofOf(g.mode, o), Root(g.mode, g.root), LeafOf(g.mode, o), IdxOf(o))
+
+ClaimAmt(o) == Amt(o.salt, o.pos) + (IF o.corr = "leaf" THEN 1 ELSE 0)
+
+(* ghost state ---------------------------------------------------------------------*)
+\* flavour "sha" | "kec" (thin contracts over the library) | "airdrop" (the example, SHA-256)
+GInit(flavour, mode, obs) ==
+  [flavour |-> flavour, mode |-> mode, root |-> NoTree, claimed |-> {}, bal |-> obs.bal, pool |-> obs.pool]
+
+ExpBal(g, o) == IF g.flavour = "airdrop" /\ o.op = "claim"
+                THEN [g.bal EXCEPT ![o.pos + 1] = @ + ClaimAmt(o)] ELSE g.bal
+
+GNext(g, ev) ==
+  LET o == ev.op IN
+  IF ev.res # "ok" THEN g ELSE
+  CASE o.op = "set_root" -> [g EXCEPT !.root = TreeOf(o), !.pool = ev.obs.pool]   \* funding is the deployer's choice
+    [] o.op = "claim"    -> [g EXCEPT !.claimed = @ \cup {IdxOf(o)}, !.bal = ExpBal(g, o),
+                                      !.pool = IF g.flavour = "airdrop" THEN ev.obs.pool ELSE @]
+    [] OTHER             -> g
+
+(* monitors ------------------------------------------------------------------------*)
+Monitors == {"C17_accept", "C17_reject", "C17_once", "C17_marked", "C17_failed_marks_nothing", "C17_airdrop"}
+PropOf(m) == "C17"
+
+Accepted(ev) == IF ev.op.op = "verify" THEN ev.res = "ok" /\ ev.ret = "true" ELSE ev.res = "ok"
+
+Ante(m, g, ev) ==
+  LET o == ev.op IN
+  CASE m = "C17_accept" ->
+         \* an honest proof for a leaf of the tree with that root (claims: the current root,
+         \* index not yet claimed)
+         \/ o.op = "verify" /\ o.corr = "none" /\ ValidVerify(g.mode, o)
+         \/ o.op = "claim" /\ o.corr = "none" /\ ValidClaim(g, o) /\ IdxOf(o) \notin g.claimed
+    [] m = "C17_reject" ->
+         \/ o.op = "verify" /\ ~ValidVerify(g.mode, o)
+         \/ o.op = "claim" /\ ~ValidClaim(g, o)
+    [] m = "C17_once" -> o.op = "claim" /\ IdxOf(o) \in g.claimed
+    [] m = "C17_marked" -> TRUE
+    [] m = "C17_failed_marks_nothing" -> o.op = "claim" /\ ev.res # "ok"
+    [] m = "C17_airdrop" -> g.flavour = "airdrop" /\ ev.res = "ok" /\ o.op # "set_root"
+
+Cons(m, g, ev) ==
+  LET o == ev.op IN
+  CASE m = "C17_accept" -> Accepted(ev)
+    [] m = "C17_reject" -> ~Accepted(ev)
+    [] m = "C17_once"   -> ev.res # "ok"
+    \* is_claimed answers exactly for the indices of the successful claims so far: marked only by
+    \* a successful claim (which C17_reject / C17_once force to be valid and first), never unmarked
+    [] m = "C17_marked" -> ev.obs.claimed = GNext(g, ev).claimed
+    [] m = "C17_failed_marks_nothing" ->
+         ev.obs.claimed = g.claimed /\ ev.obs.bal = g.bal /\ ev.obs.pool = g.pool
+    \* a successful claim pays exactly the leaf's amount to exactly the leaf's receiver, out of the pool
+    [] m = "C17_airdrop" -> /\ ev.obs.bal = ExpBal(g, o)
+                            /\ ev.obs.pool + (IF o.op = "claim" THEN ClaimAmt(o) ELSE 0) = g.pool
+
+Holds(m, g, ev) == Ante(m, g, ev) => Cons(m, g, ev)
+
+Key(m, g, ev) ==
+  IF m = "C17_reject" /\ ev.op.op = "claim" /\ IdxOf(ev.op) \in g.claimed THEN "already_claimed"
+  ELSE IF m \in {"C17_accept", "C17_reject"} THEN ev.op.op \o "_" \o ev.op.corr
+  ELSE "other"
+
+Failing(g, ev) == {m \in Monitors : ~Holds(m, g, ev)}
+=============================================================================
